@@ -440,7 +440,8 @@ def check_formulas(prog, rep, m):
     la = g.local_assigns()
     mxn = next((n_ for n_, vs in la.items() for v in vs if isinstance(v, ast.Call) and short(v) in ('nanmax', 'max')), 'max_data')
     mnn = next((n_ for n_, vs in la.items() for v in vs if isinstance(v, ast.Call) and short(v) in ('nanmin', 'min')), 'min_data')
-    env = {mxn: Rat.sym('max'), mnn: Rat.sym('min'), 'k': Rat.sym('k')}
+    kname = 'k' if 'k' in g.params else (g.params[1] if len(g.params) > 1 else 'k')      # (raster, number of classes, module)
+    env = {mxn: Rat.sym('max'), mnn: Rat.sym('min'), kname: Rat.sym('k')}
     sp = Spec(prog, env, m)
     w, wname = [], 'width'
     for n_, vs in la.items():
@@ -498,7 +499,7 @@ def check_formulas(prog, rep, m):
                 forms.append(got == Rat.sym('min') + (Rat.sym('i') + Rat.const(1)) * sp.it.env['width'])
             except (AnalysisIncomplete, KeyError):
                 forms.append(False)
-        elif t in ('%s[0:k]' % cname, '%s[:k]' % cname):
+        elif t in ('%s[0:%s]' % (cname, kname), '%s[:%s]' % (cname, kname)):
             continue
         else:
             forms.append(False)
@@ -538,7 +539,8 @@ def check_formulas(prog, rep, m):
     q = m.funcs.get('_run_quantile')
     if q is None:
         raise AnalysisIncomplete('_run_quantile not found')
-    env = {'k': Rat.sym('k')}
+    qk = 'k' if 'k' in q.params else (q.params[1] if len(q.params) > 1 else 'k')          # (data, number of classes, module)
+    env = {qk: Rat.sym('k')}
     sp = Spec(prog, env, m)
     qa = q.local_assigns()
     wn = 'w'
